@@ -15,6 +15,7 @@ func init() {
 			k := DefaultKnobs()
 			k.NoFaults, k.PFault, k.PErr, k.PPanic = false, 30, 55, 30
 			k.PFaultKind = 25
+			k.PCallback = 12 // a callback must not change what a failure does
 			k.PSide = 8
 			k.PRecover = 65
 			k.WInvoke = 11
@@ -39,6 +40,7 @@ func init() {
 			k := DefaultKnobs()
 			k.NoFaults, k.PFault, k.PErr, k.PPanic = false, 28, 55, 40
 			k.PFaultKind = 45
+			k.PCallback = 15 // a callback must not change how a panic / error surfaces
 			k.PRecover = 50
 			k.PHole = 60
 			k.PAvail = 90
